@@ -12,6 +12,7 @@ var identities = []Case{
 	{},
 	{CertFile: "rsa", KeyFile: "rsa"},
 	{CertFile: "ec", KeyFile: "ec"},
+	{CertFile: "ecchain", KeyFile: "ec"},
 	{LoadedCert: "rsa", LoadedKey: "rsa"},
 	{LoadedCert: "ec", LoadedKey: "ec"},
 }
